@@ -18,13 +18,14 @@ RULE = (
     'limits).'
 )
 ASSUMPTIONS = ['FITPACK\'s interpolating cubic spline has its breakpoints at data knots only, so 5-point Gauss-Legendre per data interval is exact']
-SIZES = {'quick': dict(sets=2000, pairs=40), 'thorough': dict(sets=40000, pairs=60)}
+SIZES = {'quick': dict(sets=2000, pairs=40, dump=40), 'thorough': dict(sets=40000, pairs=60, dump=1000)}
 REQUIRED = {
     tier: {
         'knot-values-checked': 2000,
         'extrapolation-checked': 1000,
         'integrals-vs-area': 10000,
         'additivity-triples': 5000,
+        'dumped-sy-values-checked': 200,
         'integer-limits': 500,
         'class:below-below': 100, 'class:above-above': 100, 'class:below-above': 100, 'class:inside-inside': 100,
         'class:below-inside': 100, 'class:inside-above': 100, 'class:reversed': 2000, 'class:equal-limits': 100,
@@ -137,8 +138,40 @@ def check_set(ctx, rng, params, npairs):
         rec.sample({'knots_mm': knots, 'sy_values': vals, 'example_limits': [a, b], 'integrate': iab, 'area_by_quadrature': ref})
 
 
+def check_dump(ctx, rng):
+    """`spowtd plot specific-yield --dump`: knot values and constant tails through the CLI"""
+    from scipy import interpolate
+    from .. import dump_cli
+
+    rec = ctx.rec
+    rec.case()
+    psy = gen_params.spline_sy(rng, positive=False)
+    params = {'specific_yield': psy, 'transmissivity': gen_params.spline_T(rng)}
+    knots = [float(v) for v in psy['zeta_knots_mm']]
+    vals = [float(v) for v in psy['sy_knots']]
+    span = knots[-1] - knots[0]
+    lo_cm, hi_cm = (knots[0] - rng.uniform(0, 1) * span) / 10, (knots[-1] + rng.uniform(0, 1) * span) / 10
+    rows, err = dump_cli.run_dump(ctx, 'specific-yield', params, lo_cm, hi_cm, rng.randint(3, 40))
+    case = {'kind': 'dump', 'params': psy, 'range_cm': [lo_cm, hi_cm]}
+    if err:
+        rec.violation('plot-specific-yield-dump-fails', {'error': err}, case, 'dump')
+        return
+    tck = interpolate.splrep(knots, vals, s=0, k=3)
+    vmax = max(1e-3, max(abs(v) for v in vals))
+    for z_cm, v in rows:
+        z = min(max(z_cm * 10, knots[0]), knots[-1])
+        exp = float(interpolate.splev(z, tck))
+        if abs(v - exp) > 1e-9 * vmax:
+            rec.violation('dumped-specific-yield-differs-from-the-clamped-interpolating-spline', {'level_cm': z_cm, 'dumped': v, 'expected': exp, 'knots': knots, 'values': vals}, case, 'dump')
+            return
+    rec.hit('dumped-sy-values-checked', len(rows))
+
+
 def run(ctx):
     s = SIZES[ctx.tier]
+    rng = ctx.rng('dump')
+    for _ in range(ctx.share(s.get('dump', 0))):
+        check_dump(ctx, rng)
     rng = ctx.rng('sy')
     for _ in range(ctx.share(s['sets'])):
         check_set(ctx, rng, gen_params.spline_sy(rng, positive=False), s['pairs'])
